@@ -222,7 +222,7 @@ func read(r io.Reader) (map[byte][]bucket, error) {
 				if lastItemWasDelimiter {
 					h[tag] = append(l, v)
 				} else {
-					h[tag] = []bucket{append(l[0], v...)}
+					l[len(l)-1] = append(l[len(l)-1], v...)
 				}
 			} else {
 				h[tag] = []bucket{v}
